@@ -25,3 +25,111 @@ fn c10_charinfo_pack() {
         }
     }
 }
+
+use crate::util::*;
+use crate::world::*;
+use vibrato::tokenizer::Tokenizer;
+
+//@ c10_matrix_index {"desc":"MatrixConnector::cost reads the cell of (right,left) for every in-range pair: index arithmetic never leaves the table and no two pairs alias","bounds":"2 right x 3 left ids","symbolic":"all cells, the queried pair","functions":["MatrixConnector::cost","MatrixConnector::index","MatrixConnector::new"],"fs":2048,"unwind":8,"timeout":600}
+#[cfg(kani)]
+#[kani::proof]
+fn c10_matrix_index() {
+    let (nr, nl) = (2usize, 3usize);
+    let conn = sym_matrix(nr, nl);
+    let r = any_below_u16(nr);
+    let l = any_below_u16(nl);
+    let got = conn.cost(r, l);
+    let d = conn.verif_data();
+    let mut want = 0i32;
+    for li in 0..nl {
+        for ri in 0..nr {
+            if li == l as usize && ri == r as usize {
+                want = i32::from(d[li * nr + ri]);
+            }
+        }
+    }
+    assert!(got == want);
+    assert!(conn.num_left() == nl && conn.num_right() == nr);
+    kani::cover!(r == 1 && l == 2);
+    core::mem::forget(conn);
+}
+
+//@ c10_verify_ids {"desc":"Lexicon::verify and UnkHandler::verify accept exactly the entries whose ids lie inside the connector; an accepted entry's cost lookup is in range","bounds":"2 lexicon words, 2 unknown entries, connector 2 right x 3 left ids; ids any u16","symbolic":"all ids and costs, matrix cells","functions":["Lexicon::verify","UnkHandler::verify","MatrixConnector::cost"],"fs":2048,"unwind":8,"timeout":900}
+#[cfg(kani)]
+#[kani::proof]
+fn c10_verify_ids() {
+    let (nr, nl) = (2usize, 3usize);
+    let conn = sym_matrix(nr, nl);
+    let mut params = Vec::with_capacity(2);
+    let mut feats = Vec::with_capacity(2);
+    let mut ok = true;
+    let mut copy = [WordParam::default(); 2];
+    for i in 0..2 {
+        let p = WordParam::new(kani::any(), kani::any(), kani::any());
+        if p.left_id as usize >= nl || p.right_id as usize >= nr {
+            ok = false;
+        }
+        copy[i] = p;
+        params.push(p);
+        feats.push(String::new());
+    }
+    let lex = Lexicon::verif_from_parts(&gen::LEX_A_AB_TRIE, copy_u32(&gen::LEX_A_AB_POST), params, feats, LexType::System);
+    assert!(lex.verify(&conn) == ok, "lexicon id verification disagrees with 'every id inside the connector'");
+    if ok {
+        // acceptance implies a safe lookup
+        let _ = conn.cost(copy[0].right_id, copy[1].left_id);
+    }
+    let mut entries = Vec::with_capacity(2);
+    let mut uok = true;
+    for _ in 0..2 {
+        let (l, r): (u16, u16) = (kani::any(), kani::any());
+        if l as usize >= nl || r as usize >= nr {
+            uok = false;
+        }
+        entries.push(UnkEntry { cate_id: 0, left_id: l, right_id: r, word_cost: kani::any(), feature: String::new() });
+    }
+    let unk = UnkHandler::verif_from_parts(vec![0, 2], entries);
+    assert!(unk.verify(&conn) == uok, "unknown-entry id verification disagrees with 'every id inside the connector'");
+    kani::cover!(ok && uok);
+    kani::cover!(!ok && uok);
+    core::mem::forget(lex);
+    core::mem::forget(unk);
+    core::mem::forget(conn);
+}
+
+const S_KF10: Spec = Spec { sys: L_A_AB, user: None, cats: CATS_MIX, unk_mult: &[0, 1, 1], nr: 2, nl: 2 };
+
+//@ c10_kf_accepted_dictionary_panics {"desc":"acceptance implies safe use: a dictionary in which a char.def category has no unk.def entry passes the builder's checks (ids in range) but tokenizing a character of that category must not panic","bounds":"N=1 \"c\"; dictionary with zero DEFAULT unknown entries","symbolic":"costs, ids, matrix","functions":["Lexicon::verify","UnkHandler::verify","Worker::tokenize","UnkHandler::gen_unk_words","Lattice::insert_eos"],"fs":2048,"unwind":6,"timeout":600,"covers":"none"}
+#[cfg(kani)]
+#[kani::proof]
+fn c10_kf_accepted_dictionary_panics() {
+    let tok_owned = tokenizer_of(&S_KF10, false, 0);
+    let tok = &tok_owned;
+    // exactly what SystemDictionaryBuilder::build checks before returning a dictionary
+    let d = tok.dictionary();
+    assert!(d.verif_system_lexicon().verify(d.verif_connector()));
+    assert!(d.verif_unk_handler().verify(d.verif_connector()));
+    let mut w = tok.new_worker();
+    w.reset_sentence("\u{3}");
+    w.tokenize();
+    assert!(w.num_tokens() == 1);
+    core::mem::forget(w);
+    core::mem::forget(tok_owned);
+}
+
+//@ c10_twin {"expect":"fail","desc":"vacuity twin: claims verify accepts every parameter","bounds":"as c10_verify_ids","symbolic":"ids","functions":["Lexicon::verify"],"fs":2048,"unwind":8,"timeout":600,"covers":"none"}
+#[cfg(kani)]
+#[kani::proof]
+fn c10_twin() {
+    let conn = sym_matrix(2, 3);
+    let mut params = Vec::with_capacity(2);
+    let mut feats = Vec::with_capacity(2);
+    for _ in 0..2 {
+        params.push(WordParam::new(kani::any(), kani::any(), kani::any()));
+        feats.push(String::new());
+    }
+    let lex = Lexicon::verif_from_parts(&gen::LEX_A_AB_TRIE, copy_u32(&gen::LEX_A_AB_POST), params, feats, LexType::System);
+    assert!(lex.verify(&conn), "VACUITY: out-of-range ids exist");
+    core::mem::forget(lex);
+    core::mem::forget(conn);
+}
